@@ -10,11 +10,11 @@ fam() { case $1 in C01|C02|C03|C10|C19|C11) echo "C01 C02 C03 C10 C19 C11";; C04
   C06|C07|C13|C14) echo "C06 C07 C13 C14";; C08|C16|C17|C18) echo "C08 C16 C17 C18";; C09|C15|C20) echo "C09 C15 C20";; esac; }
 for p in "$@"; do
   git -C $SR checkout -q -- . ; git -C $SR clean -fdq
-  git -C $SR apply $MUTSRC/$p/h/patch.diff || { echo "$p-h: does not apply"; continue; }
+  HV=${HVAR:-h}; git -C $SR apply $MUTSRC/$p/$HV/patch.diff || { echo "$p-$HV: does not apply"; continue; }
   for q in $(fam $p); do
     [ $q = $p ] && continue
     out=$(cd $VW && VERIF_REPO=$SR ./check $q quick 2>&1); rc=$?
-    echo "$p-h vs $q: exit=$rc $(echo "$out" | grep -E '^VIOLATION|^CHECK-ERROR' | head -2 | tr '\n' ';')"
+    echo "$p-${HVAR:-h} vs $q: exit=$rc $(echo "$out" | grep -E '^VIOLATION|^CHECK-ERROR' | head -2 | tr '\n' ';')"
   done
 done
 git -C $SR checkout -q -- . ; git -C $SR clean -fdq
